@@ -88,6 +88,16 @@ def handleWinding (j : Json) : Except String Json := do
 def handleC18 (j : Json) : Except String Json := do
   let op ← fldD j "op" jStr ""
   if op == "winding" then return (← handleWinding j)
+  if op == "to_size" then
+    let ts ← fld j "tris" (jList jTri)
+    let m2 ← fld j "m2" jRat
+    let fuel ← fld j "fuel" jNat
+    let res := ts.map (toSizeR m2 fuel)
+    return obj [
+      ("ok", ofBool (res.all Option.isSome)),
+      ("count", ofNat ((res.map (fun r => (r.getD []).length)).sum)),
+      ("max_edge2", ofRat (((res.flatMap (fun r => r.getD [])).map maxEdge2R).foldl max 0)),
+      ("tie", ofBool (ts.any (toSizeTie m2 (1 / 1000000000) fuel)))]
   let ts ← fld j "tris" (jList jTri)
   let sub := subdivideR ts
   let area2 (xs : List Tri) : List V := xs.map areaVecR
